@@ -1636,7 +1636,7 @@ def generate_ordered_map_to_left_left_unique_partial(left,
                                                      i,
                                                      j,
                                                      r):
-    while i < len(left) and j < j_max:
+    while i < len(left) and j < j_max and r < len(l_result):
         if left[i] < right[j]:
             l_result[r] = i + i_off
             r_result[r] = invalid
